@@ -171,8 +171,9 @@ def divide_with_recompute_zero_outer_or_nonzero_lo(r):
 
 def stage_mem_write_only_partial(r):
     """stage_mem on a block that only writes part of the staged window: no load
-    phase is emitted but the whole window is stored back."""
-    if r.get("op") != "stage_mem":
+    phase is emitted but the whole window is stored back.  std.auto_stage_mem(block, buf,
+    name, accum) forwards exactly these arguments to stage_mem (same site, same input class)."""
+    if r.get("op") not in ("stage_mem", "std.auto_stage_mem"):
         return False
     p, op, args, env = _ctx(r)
     if args[3] is not False:
@@ -242,6 +243,8 @@ def delete_config_on_non_config_stmt(r):
 
 
 def _block_nodes_and_rest(block_impl):
+    if not hasattr(block_impl, "_range"):
+        block_impl = block_impl.as_block()  # a statement cursor denotes the one-statement block
     anchor = block_impl._anchor._node
     sibs = getattr(anchor, block_impl._attr)
     rng = block_impl._range
@@ -639,6 +642,51 @@ def autofission_loop_carried_dependency(r):
     for s in post:
         uses_post |= {rd.name for rd in _all_reads(s)} | set(_writes_in(s, []))
     return bool((w_pre - local) & uses_post)
+
+
+def _reduces_in(node, out):
+    if isinstance(node, LoopIR.Reduce):
+        out.append(node.name)
+    if isinstance(node, LoopIR.Call):
+        for st in node.f.body:
+            sub = []
+            _reduces_in(st, sub)
+            for fa, a in zip(node.f.args, node.args):
+                if fa.name in sub and isinstance(a, (LoopIR.Read, LoopIR.WindowExpr)):
+                    out.append(a.name)
+    for ch in _children(node):
+        if isinstance(ch, LoopIR.stmt):
+            _reduces_in(ch, out)
+    return out
+
+
+def fission_idempotent_prefix_reduced_after(r):
+    """fission's Commutes_Fissioning accepts `a1 ; a2` -> `loop a1 ; loop a2` when a1 does not mention the
+    loop variable and is idempotent, without asking that a2 does not *accumulate* into what a1 writes:
+    for i: acc = 0.0 ; for j: acc += ... ; y[i] = acc   is split after `acc = 0.0`."""
+    if r.get("op") != "fission" or r.get("property") not in ("C01", "C10"):
+        return False
+    p, op, args, env = _ctx(r)
+    gap = args[0]._impl
+    sibs, k = _block_and_index(gap._anchor)
+    cut = k if gap._type.name == "Before" else k + 1
+    pre, post = sibs[:cut], sibs[cut:]
+    loop = gap._anchor.parent()._node
+    if not isinstance(loop, LoopIR.For):
+        return False
+    # the prefix does not mention the loop variable ...
+    for s in pre:
+        if any(rd.name == loop.iter for rd in _all_reads(s)):
+            return False
+    # ... writes a buffer that outlives an iteration, which the suffix reduces into
+    local = {s.name for s in pre if isinstance(s, LoopIR.Alloc)}
+    w_pre = set()
+    for s in pre:
+        w_pre |= set(_writes_in(s, []))
+    red_post = set()
+    for s in post:
+        red_post |= set(_reduces_in(s, []))
+    return bool((w_pre - local) & red_post)
 
 
 def split_write_rhs_reads_lhs(r):
